@@ -987,6 +987,18 @@ fn shortest_unused_sequence(literal: &[u8], f: u8) -> usize {
     i
 }
 
+/// Verification hook: the crate-private `shortest_unused_sequence`.
+#[cfg(comrak_verif)]
+pub fn verif_shortest_unused_sequence(literal: &[u8], f: u8) -> usize {
+    shortest_unused_sequence(literal, f)
+}
+
+/// Verification hook: the crate-private `longest_char_sequence`.
+#[cfg(comrak_verif)]
+pub fn verif_longest_char_sequence(literal: &[u8], ch: u8) -> usize {
+    longest_char_sequence(literal, ch)
+}
+
 fn is_autolink<'a>(node: &'a AstNode<'a>, nl: &NodeLink) -> bool {
     if nl.url.is_empty() || scanners::scheme(nl.url.as_bytes()).is_none() {
         return false;
